@@ -12,6 +12,12 @@ CHECKS = {
         text="Every clause of the property is an invariant/liveness property of SRM.tla checked exhaustively by TLC for small constants (2-3 objects, 1-3 producers/consumers, shutdown, non-blocking gets, extra live counts); the real EbSystemResourceManager.c is bound to the same actions by per-critical-section events validated step by step (every invariant evaluated after every event) for stress runs under seeded schedule perturbation and for all ~25 SRM instances of real encodes.",
         note="Exhaustive only for the listed small constants; implementation conformance only for executions that were recorded; hooks are trusted to sit inside the critical sections (demonstrated by corrupted-trace self-tests on every run).",
         design="3.1, 4 (C23)"),
+    "C24": dict(
+        category="model_checking",
+        technique="TLA+ spec EncDecSeg.tla: TLC exhaustive over all small grids x segment grids x worker interleavings (EncDecSegMC, safety + completion under fairness) + trace validation (EncDecSegTrace) of every picture/tile group of real encodes, including the tables computed by enc_dec_segments_init",
+        text="Exactly-once, neighbour-order and completion are invariants/liveness of EncDecSeg.tla checked for every grid up to 5x5 superblocks, every requested segment grid and every interleaving of up to 3 workers; the real scheduler is bound by events at every assignment step and at every superblock start/end, and the geometry tables of the real init are compared entry by entry with the specification's for every picture of every recorded encode.",
+        note="All interleavings only for small grids; real-size grids (up to 13x6 quick, larger in thorough) are covered by recorded schedules under perturbation. The feedback-task pool is assumed not to run dry.",
+        design="3.2, 4 (C24)"),
 }
 
 NOT_APPLICABLE = {
